@@ -219,7 +219,7 @@ class uamiv(PseudoNetCDFFile):
         """
         d, t = dt
         nsteps = int(
-            timediff((self.start_date, self.start_time), (d, t)) /
+            timediff((self.start_date, self.start_time), (d, t), 24) /
             self.time_step)
         nspec = self.__spcrecords(self.nspec + 1)
         return nsteps * nspec
